@@ -6,7 +6,17 @@ scope first draws a role per pool name (param / local / declared global / declar
 absent) and then emits statements consistent with the roles, so the module compiles by construction
 (nonlocal only where an enclosing function binding exists, declarations before use, no walrus on an
 iteration variable, ...). All values are instances of one universal class `V` (callable, iterable,
-subscriptable, context manager, arithmetic), so programs are total apart from unbound-variable reads.
+subscriptable, context manager, arithmetic, formattable, mapping-like for `**`), so programs are total
+apart from unbound-variable reads.
+Expressions also place reads (and walruses, lambdas, comprehensions) in the "out of the way" fields of
+expression nodes: f-string replacement fields with conversions, debug specifiers, constant and *nested*
+format specs (`f"{v!r:>{w}.{p}}"`, two levels deep, also inside lambdas / comprehensions / class bodies /
+other f-strings; a nested field prefers a name the scope has not read yet, so that this read alone decides
+the name's free/global classification), slice bounds and tuple indices (also on bases without a qualified
+name), list/tuple/set/dict displays with `*` / `**` items, `*` / `**` call arguments, chained comparisons,
+unary minus, calls on call results (classes has:fstring*, has:slice, has:subscript_*, has:display_*,
+has:call_*). CPython 3.12.1 cannot compile a debug specifier inside a nested field (f"{w:{w=}}" raises
+ValueError from the compiler): that shape is never written.
 
 Static oracle: `symtable.symtable(source)` is CPython's answer. The vocabulary mapping is
 
@@ -23,6 +33,7 @@ Static oracle: `symtable.symtable(source)` is CPython's answer. The vocabulary m
                             nothing to F for them and malt reports them only when the descendant does
                             not also assign them).
     no statement scope of F may report a parameter (Scope.params) that is not a parameter of F.
+    a def/lambda the analysis left without scope annotations is reported (static:no_scope): it reports nothing for it.
 
 Dynamic oracle: the original module is executed under sys.settrace with f_trace_opcodes; every
 LOAD_/STORE_/DELETE_ {FAST,DEREF,NAME,GLOBAL,ATTR,SUBSCR} instruction is mapped through its exact
@@ -74,7 +85,7 @@ ID = 'C08'
 LEVEL = 'exploration'
 TECHNIQUE = ('property-based testing with two independent oracles: (static) Hypothesis-generated binding trees (nested defs, lambdas, '
              'classes, comprehensions, global/nonlocal, all parameter kinds, annotations, decorators, defaults, imports, with/except/for '
-             'targets, attribute and subscript targets, walrus, del) analysed by malt and compared per function with CPython\'s own symbol '
+             'targets, attribute and subscript targets, walrus, del, f-strings with nested format specs, slices, displays and calls with unpacking) analysed by malt and compared per function with CPython\'s own symbol '
              'table (stdlib symtable); (dynamic) the same program executed under sys.settrace with opcode events, every executed name '
              'load/store/delete mapped by co_positions to its AST node and checked against the read/modified/deleted set of the statement '
              '(or lambda) that contains it')
@@ -177,6 +188,10 @@ class V(object):
     return 1
   def __neg__(self):
     return V()
+  def __format__(self, spec):
+    return '1'
+  def keys(self):
+    return ()
 def fv(f):
   return V(f)
 def deco(f):
@@ -236,6 +251,7 @@ class Sc(object):
     self.in_handler = 0
     self.avoid = set()          # iteration variables of the generator whose iterable is being written
     self.nest = 0               # block nesting inside this scope
+    self.seen_reads = set()     # pool names rname() has handed out in this scope so far
 
   def pending_names(self):
     return set(n for _, n in self.pending)
@@ -254,6 +270,7 @@ class Gen(object):
     self.nc = 0
     self.meta = collections.Counter()
     self.iter_lams = []
+    self.fnest = 0
     self.module_sc = Sc('func', None)
     for n in POOL:
       self.module_sc.roles[n] = 'global'
@@ -319,6 +336,11 @@ class Gen(object):
     return self.role(sc, n) in ('param', 'local', 'global', 'nonlocal') and n not in sc.pending_names()
 
   def rname(self, sc):
+    n = self._rname(sc)
+    sc.seen_reads.add(n)
+    return n
+
+  def _rname(self, sc):
     t = sorted(self.active_targets(sc) - sc.avoid)
     if t and self.chance(55):
       return self.pick(t)
@@ -329,6 +351,18 @@ class Gen(object):
     if safe and self.chance(95):
       return self.pick(safe)
     return self.pick(cand)
+
+  def fresh_rname(self, sc):
+    """A readable pool name this scope has not read yet (None when there is none): a read placed in an
+    out-of-the-way sub-expression is then likely the only one that makes the name free/global here."""
+    act = self.active_targets(sc)
+    cand = [n for n in POOL if n not in sc.seen_reads and n not in act and self.readable(sc, n) and self.safe(sc, n)
+            and self.role(sc, n) in ('free', 'global', 'nonlocal', 'param')]
+    if not cand:
+      return None
+    n = self.pick(cand)
+    sc.seen_reads.add(n)
+    return n
 
   def bname(self, sc):
     """A simple name that may be bound in sc at this point (None when there is none)."""
@@ -376,7 +410,13 @@ class Gen(object):
   def expr(self, sc, d=2):
     if d <= 0:
       return self.atom(sc)
-    k = self.i(24)
+    k = self.i(28)
+    if k >= 24:
+      if k < 26:
+        return self.fstring(sc, d)
+      if k == 26:
+        return self.slicing(sc, d) if self.chance(50) else self.display(sc, d)
+      return self.unpack_call_or_operator(sc, d)
     if k < 7:
       return self.atom(sc)
     if k < 9:
@@ -408,6 +448,186 @@ class Gen(object):
       return '%s[%s + 1]' % (self.rname(sc), self.atom(sc))
     return 'tot((%s, %s))' % (self.expr(sc, d - 1), self.expr(sc, d - 1))
 
+  # ---- expression containers whose sub-expressions sit in "out of the way" fields of the node
+  # (format specs, conversions, slice bounds, starred / double-starred items): every name read there is an
+  # ordinary read of the enclosing scope for CPython
+  def where(self, sc):
+    if sc.comp or sc.within_comp:
+      return 'comprehension'
+    return {'func': 'def', 'lambda': 'lambda', 'class': 'class_body'}[sc.kind]
+
+  def sub(self, sc, d, simple_pct=55):
+    return self.atom(sc) if d <= 1 or self.chance(simple_pct) else self.expr(sc, d - 1)
+
+  def fstring(self, sc, d, bare=False):
+    """f-string with 1-3 replacement fields; literal text (also escaped braces) in between; sometimes
+    implicitly concatenated with a plain literal. Wrapped in tot() so that the value is a V like every
+    other value of the program (bare: the caller discards the value)."""
+    self.fnest += 1
+    if self.fnest > 1:
+      self.note('has:fstring_inside_fstring')
+    out = []
+    for _ in range((1, 1, 1, 1, 2, 3)[self.i(6)]):
+      if self.chance(35):
+        out.append(self.pick(('a', ' ', 'k=', '{{', '}}', "it's", '{{}}', ': ', '!r')))
+      out.append(self.field(sc, d, 0, False))
+    if self.chance(25):
+      out.append(self.pick(('b', ' ', '}}', '{{', '.')))
+    self.fnest -= 1
+    self.note('has:fstring')
+    self.note('has:fstring_in_' + self.where(sc))
+    text = 'f"%s"' % ''.join(out)
+    if self.chance(10):
+      text = ("'p' %s" % text) if self.chance(50) else ('%s "q"' % text)
+      self.note('has:fstring_implicit_concatenation')
+    return text if bare else 'tot(%s)' % text
+
+  def field(self, sc, d, level, str_spec):
+    """One replacement field. level 0: field of the string itself, 1: field inside a format spec,
+    2: field inside the spec of a level-1 field (the deepest CPython accepts). str_spec: the text this field
+    expands to is part of a format spec applied to a str (keep it a valid one: V formats as '1')."""
+    fresh = None
+    if level > 0 and self.chance(45):
+      fresh = self.fresh_rname(sc)
+    if fresh is not None:
+      val = fresh
+      self.note('has:fstring_spec_name_first_read_of_scope')
+    else:
+      val = self.sub(sc, d, 45 if level == 0 else 65)
+    if level > 0 and not val.isidentifier():
+      self.note('has:fstring_nested_spec_with_complex_expression')
+    debug = ''
+    # (CPython 3.12.1 cannot compile a debug specifier inside a nested field: f"{w:{w=}}" -> ValueError)
+    if level == 0 and self.chance(10):
+      debug = self.pick(('=', ' = ', '= '))
+      self.note('has:fstring_debug_specifier')
+    conv = ''
+    if not str_spec and self.chance(30):
+      conv = self.pick(('!r', '!s', '!a'))
+      self.note('has:fstring_conversion')
+    spec = ''
+    j = self.i(20)
+    lim = 9 if level == 0 else (5 if level == 1 else 0)    # chance of a nested spec falls with the level
+    if j < lim:
+      # nested spec: [align] {width} [ . {precision} ]
+      inner_str = bool(conv) or str_spec
+      spec = ':' + self.pick(('', '', '>', '^', '<'))
+      spec += self.field(sc, d, level + 1, inner_str)
+      two = self.chance(35)
+      if two:
+        spec += '.' + self.field(sc, d, level + 1, inner_str)
+      self.note('has:fstring_nested_spec')
+      self.note('has:fstring_nested_spec_in_' + self.where(sc))
+      if two:
+        self.note('has:fstring_nested_spec_two_fields')
+      if level > 0:
+        self.note('has:fstring_nested_spec_level2')
+      if conv:
+        self.note('has:fstring_nested_spec_after_conversion')
+    elif j < 13:
+      spec = ':' + self.pick(('>8', '^4', '<3', '5', '', '>2.1'))
+      self.note('has:fstring_constant_spec')
+    if val.startswith('{'):
+      val = ' ' + val
+    return '{%s%s%s%s}' % (val, debug, conv, spec)
+
+  def slicing(self, sc, d):
+    """Subscripts with slice / tuple indices, also on bases that have no qualified name."""
+    j = self.i(10)
+    if j < 6:
+      base = self.rname(sc)
+      if not base.isidentifier() or base in ('tot', 'deco'):
+        base = 'tot()'
+    elif j < 8:
+      base = 'tot(%s)' % self.sub(sc, d)
+    elif j == 8:
+      base = '(%s + %s)' % (self.atom(sc), self.atom(sc))
+    else:
+      base = self.composite(sc)
+    if j >= 6:
+      self.note('has:subscript_on_unnameable_base')
+    # (every drawn sub-expression is used: a dropped walrus would leave a local without binding occurrence)
+    a = lambda: self.sub(sc, d)
+    b = lambda: self.sub(sc, d, 75)
+    k = self.i(9)
+    if k == 0:
+      idx = '%s:%s' % (a(), b())
+    elif k == 1:
+      idx = '%s:' % a()
+    elif k == 2:
+      idx = ':%s' % a()
+    elif k == 3:
+      idx = '%s:%s:%s' % (a(), b(), b())
+    elif k == 4:
+      idx = '::%s' % a()
+    elif k == 5:
+      idx = '%s, %s' % (a(), b())
+      self.note('has:subscript_tuple_index')
+    elif k == 6:
+      idx = '%s:%s, %s' % (a(), b(), b())
+      self.note('has:subscript_tuple_index')
+    elif k == 7:
+      idx = '%s' % a()        # an arbitrary expression as index
+    else:
+      idx = '%s + 1:' % a()
+    if ':' in idx:
+      self.note('has:slice')
+    return '%s[%s]' % (base, idx)
+
+  def display(self, sc, d):
+    """List / tuple / set / dict displays, with starred and double-starred items."""
+    a, b = self.sub(sc, d), self.sub(sc, d, 70)
+    k = self.i(8)
+    if k == 0:
+      t = '[%s, %s]' % (a, b)
+    elif k == 1:
+      t = '[%s, *%s]' % (a, b)
+    elif k == 2:
+      t = '(*%s, %s)' % (a, b)
+    elif k == 3:
+      t = '{%s, %s}' % (a, b)
+    elif k == 4:
+      t = '{*%s, %s}' % (a, b)
+    elif k == 5:
+      t = '{%s: %s}' % (a, b)
+    elif k == 6:
+      t = '{%s: %s, **%s}' % (a, b, self.atom(sc))
+    else:
+      t = '{**%s, %s: %s}' % (a, b, self.atom(sc))
+    self.note('has:display_' + ('list', 'list', 'tuple', 'set', 'set', 'dict', 'dict', 'dict')[k])
+    if k in (1, 2, 4, 6, 7):
+      self.note('has:display_with_unpacking')
+    return 'tot(%s)' % t
+
+  def unpack_call_or_operator(self, sc, d):
+    a = lambda: self.sub(sc, d)
+    b = lambda: self.sub(sc, d, 70)
+    k = self.i(8)
+    if k == 0:
+      self.note('has:call_starred_argument')
+      return 'tot(*%s)' % a()
+    if k == 1:
+      self.note('has:call_double_starred_argument')
+      return 'tot(**%s)' % a()
+    if k == 2:
+      self.note('has:call_starred_argument')
+      self.note('has:call_double_starred_argument')
+      return 'tot(%s, *%s, k=%s, **%s)' % (self.atom(sc), a(), b(), self.atom(sc))
+    if k == 3:
+      self.note('has:call_starred_argument')
+      return '%s(*%s)' % (self.rname(sc), a())
+    if k == 4:
+      self.note('has:chained_comparison')
+      return '(%s < %s <= %s)' % (a(), b(), self.atom(sc))
+    if k == 5:
+      self.note('has:unary_minus')
+      return '(-%s)' % a()
+    if k == 6:
+      self.note('has:call_on_call_result')
+      return 'tot(%s)(%s)' % (a(), b())
+    self.note('has:conditional_in_subscript')
+    return '%s[%s if %s else %s]' % (self.rname(sc) if self.chance(50) else 'tot()', a(), b(), self.atom(sc))
+
   def walrus(self, sc, d):
     if sc.no_walrus or sc.in_iter:
       return self.atom(sc)
@@ -418,7 +638,7 @@ class Gen(object):
       if 'FC08b_walrus_in_comprehension' in self.excl:
         self.note('excluded:FC08b_walrus_in_comprehension')
         return self.atom(sc)
-    cand = [n for n in POOL if self.bindable(sc, n) and n not in act]
+    cand = [n for n in POOL if self.bindable(sc, n) and n not in act and not (sc.comp and n in sc.avoid)]
     if not cand:
       return self.atom(sc)
     ob = [n for n in cand if n in sc.oblig]
@@ -833,6 +1053,10 @@ class Gen(object):
         self.emit(ind, 'continue')
       else:
         self.emit(ind, 'break')
+    elif k == 17 and self.chance(50):
+      # an f-string that is the statement's value itself (its str value goes nowhere near the pool names)
+      self.emit(ind, self.pick(('%s', 'u = %s', 'assert %s', 'u: %s', 'u = tot()[%s]')) % self.fstring(sc, 2, bare=True))
+      self.note('has:fstring_as_statement_value')
     else:
       self.emit(ind, self.expr(sc))
 
@@ -1504,6 +1728,11 @@ def check_static(src, top, fails, stats):
       if s.get_name() in POOL:
         classes[s.get_name()].add(classify(s))
     what = '%s@%d' % (_tname(node), node.lineno)
+    if not (anno.hasanno(node, NodeAnno.ARGS_AND_BODY_SCOPE) and anno.hasanno(node, NodeAnno.BODY_SCOPE)
+            and anno.hasanno(node.args, anno.Static.SCOPE)):
+      # the analysis never reached this function (it reports nothing for it)
+      fails.append(('static:no_scope', {'function': what}))
+      continue
     S = anno.getanno(node, NodeAnno.ARGS_AND_BODY_SCOPE)
     B = anno.getanno(node, NodeAnno.BODY_SCOPE)
     A = anno.getanno(node.args, anno.Static.SCOPE)
@@ -1883,11 +2112,11 @@ def check_dynamic(top, events, fails, stats):
     else:
       o = owner_of(target)
       if o[0] == 'lambda':
-        scopes = [anno.getanno(o[1], NodeAnno.ARGS_AND_BODY_SCOPE)]
+        scopes = [anno.getanno(o[1], NodeAnno.ARGS_AND_BODY_SCOPE)] if anno.hasanno(o[1], NodeAnno.ARGS_AND_BODY_SCOPE) else None
         where = 'lambda@%d' % o[1].lineno
       elif o[0] == 'handler':
         f = enclosing_function(o[1])
-        scopes = [anno.getanno(f, NodeAnno.BODY_SCOPE)] if isinstance(f, ast.FunctionDef) else []
+        scopes = [anno.getanno(f, NodeAnno.BODY_SCOPE)] if isinstance(f, ast.FunctionDef) and anno.hasanno(f, NodeAnno.BODY_SCOPE) else []
         where = 'except@%d' % o[1].lineno
       elif o[0] == 'stmt':
         scopes = scopes_for(o[1], o[2], kind)
